@@ -1222,8 +1222,15 @@ class LogicalBracket_2d(BracketBasic):
 
 #==============================================================================
 def _is_atom_of(a, atom):
-    """True if the innermost argument `a` of a derivative is `atom`, or one of
-    the components of `atom` when `atom` is a VectorFunction."""
+    """True if the innermost argument `a` of a derivative is `atom`, `atom`
+    restricted to one side of an interface, or one of the components of `atom`
+    when `atom` is a VectorFunction."""
+    if a == atom:
+        return True
+    # a function restricted to one side of an interface (minus(u), plus(u))
+    # is still that function
+    while isinstance(a, (minus, plus)):
+        a = a.args[0]
     if a == atom:
         return True
     return (isinstance(atom, VectorFunction) and
